@@ -16,6 +16,7 @@ def run(tier, seed, which="C12"):
             V.add_tlc(r)
             if not r.ok:
                 raise kv.Broken("MC_GuideTree: copies do not form a clade: %s" % r.out[-600:])
+    kv.mc_aligner(V, wd, "c12", tier)
     groups = []
     n_cases = 60 if tier == "quick" else 1500
     for i in range(n_cases):
